@@ -77,11 +77,18 @@ public:
   size_t getSize();
 
   /** Loads a hash from a file*/
+  /* Stores the hash table in the layout Hash::save writes (one offset per
+   * table cell), whatever the in-memory representation is.
+   * @fp: output stream.
+   */
+  void save(std::ostream &fp);
+
   static HashBBdh *load(std::istream &fp);
 
   virtual ~HashBBdh();
 
 protected:
   BitSequence *offsets;
+  uint numbits; // width of the offsets in the stored table
 };
 #endif
